@@ -554,6 +554,7 @@ MESSY_SQL = ("SELECT a.x,b.y as Y , COUNT(*),  a.*  from tbl a JOIN other as b o
              "select DISTINCT(c), 'd' as \"e\" , f AS F , CASE WHEN g THEN TRUE ELSE FALSE END, coalesce(h, 0) h2, IFNULL(i, 1) from u as u\n"
              "UNION\n"
              "SELECT foo.c, e, F, 1, 2, 3 FROM (SELECT * FROM v) AS foo inner join w using(c) WHERE e != 1 ;\n\n\n")
+MESSY_SHORT = MESSY_SQL.split(";\n")[0] + ";\n"            # first statement only: used for the (slow) fix=True runs
 SQLS = [("messy", "raw", MESSY_SQL),
         ("messy+unparsable", "raw", MESSY_SQL + "selec nonsense foo bar;\n"),          # PRS, tree exists, rules run
         ("unclosed-bracket", "raw", MESSY_SQL + "select 1 from (((\n"),                 # fatal PRS: no tree, no rule can run
@@ -572,7 +573,7 @@ def dynamic_only_selected(tier, seed):
     oracle = Oracle(rs._register.values())
     sels = [s for ss in POOL.values() for s in ss] + ["AM0*", "ambiguous", "convention", "structure", "references", "RF02", "CV*", "ST0[2678]"]
     rng = random.Random(seed + 2)
-    n_runs = 28 if tier == "quick" else 400
+    n_runs = 18 if tier == "quick" else 400
     crawled = []
     real_crawl = BaseRule.crawl
 
@@ -600,7 +601,9 @@ def dynamic_only_selected(tier, seed):
             a = tuple(rng.sample(sels, rng.choice([0, 1, 1, 2, 2, 3]))) if n % 7 != 3 else ("",)      # ("",): `rules` explicitly empty
             d = tuple(rng.sample(sels, rng.choice([0, 0, 1, 1, 2])))
             label, templater, sql = SQLS[0] if n % 4 else SQLS[1 + (n // 4) % 3]
-            mode = ("lint", "fix", "api")[n % 3] if templater == "raw" else "lint"
+            mode = ("lint", "fix", "api", "lint")[n % 4 if n % 8 else 1] if templater == "raw" else "lint"
+            if mode == "fix" and label == "messy":
+                label, sql = "messy-short", MESSY_SHORT
             expected = oracle.selected(a, d)
             ov = {"dialect": "ansi", "templater": templater}
             if a:
